@@ -1,4 +1,5 @@
 import MQ.Model.Accept
+import MQ.Model.SpecDrv
 open MQ
 
 partial def readAll (h : IO.FS.Stream) (acc : Array String) : IO (Array String) := do
@@ -28,4 +29,5 @@ def runCore : IO Unit := do
 def main (args : List String) : IO Unit := do
   match args with
   | ["core"] => runCore
+  | ["spec"] => MQ.Spec.runSpec
   | _ => IO.println "usage: mqdrv core < traces"
